@@ -41,5 +41,5 @@ Step == l = 1 /\ Holds /\ l' = 2 /\ UNCHANGED tid
 Spec == Init /\ [][Step]_vars
 Accept == l = 2 => PrintT(<<"ACC", tid>>)
 Progress == Diag => PrintT(<<"AT", tid, l>>)
-DiagClauses == (Diag /\ l = 1) => PrintT(<<"CL", tid, l, Clauses>>)
+DiagClauses == (Diag /\ l = 1) => PrintT(<<"CL", tid, l, { f \in DOMAIN Clauses : ~Clauses[f] }>>)
 =============================================================================
